@@ -44,7 +44,7 @@ def bad_operator(inputs, value):
 
 
 def run(ctx: Ctx):
-  for r in (r1, r2, r3, r4, r8, r9, r10, r13, r15, r16, r18, r19, r20, r21, r23):
+  for r in (r1, r2, r3, r4, r8, r9, r10, r13, r15, r16, r18, r19, r20, r21, r23, r24):
     ctx.guard(r)
   from mlmverif.props import c18, c19
   from mlmverif.props import c18 as _c18
@@ -946,11 +946,52 @@ def r23(ctx: Ctx):
   ctx.floor(rule, 2, n)
 
 
+def r24(ctx: Ctx):
+  rule = 'R-C08-24'
+  ctx.rule(rule, '"invalid key/argument combinations are rejected at build, not silently mis-routed at run time" — and valid ones are'
+           ' accepted: Key.SKIP ("write this output nowhere") is a placeholder, not a key. Every method of TreeTransform that'
+           ' collects OUTPUT keys into a set (the build-time key tracking: `output_keys`, `_check_assign_keys`) takes SKIP'
+           ' out of it — otherwise two assigns that each skip an output are refused as "duplicate", and batch() tries to'
+           ' read a column named SKIP at run time. And `_check_assign_keys` rejects a key that occurs twice WITHIN one'
+           ' assign (a guard comparing the number of keys with the number of distinct keys), as it rejects one that an'
+           ' earlier operator already assigned')
+  ci = ctx.repo.cls(TR, 'TreeTransform')
+  n = 0
+  for name in ('output_keys', '_check_assign_keys'):
+    fi = ci.methods.get(name)
+    if fi is None:
+      raise AnalysisError(f'{rule}: TreeTransform.{name} not found')
+    n += 1
+    what = f'TreeTransform.{name}: Key.SKIP is not tracked as an output key'
+    if any(isinstance(y, ast.Attribute) and y.attr == 'SKIP' for y in ast.walk(fi.node)):
+      ctx.ok(rule, fi, what, fi.node)
+    else:
+      ctx.fail(rule, fi, what,
+               f'TreeTransform.{name} collects the output keys without taking Key.SKIP out: the placeholder is treated as a real'
+               ' key — valid pipelines are refused as duplicates and batch() reads a column that does not exist', node=fi.node)
+  chk = ci.methods['_check_assign_keys']
+  n += 1
+  dup = [x for x in ast.walk(chk.node) if isinstance(x, ast.If) and any(isinstance(r_, ast.Raise) for b in x.body for r_ in ast.walk(b))
+         and sum(1 for c in ast.walk(x.test) if isinstance(c, ast.Call) and unparse(c.func) == 'len') >= 2]
+  what = 'TreeTransform._check_assign_keys: a key repeated within one assign is rejected'
+  if dup:
+    ctx.ok(rule, chk, what, dup[0])
+  else:
+    ctx.fail(rule, chk, what,
+             '_check_assign_keys builds a SET of the new keys and never compares its size with the number of keys given:'
+             ' `assign((\'x\', \'x\'), ...)` is accepted and silently keeps the last value', node=chk.node)
+  ctx.floor(rule, 3, n)
+
+
 from mlmverif.selfcheck import B, OK  # noqa: E402
 
 _F = 'chainables/tree_fns.py'
 _T = 'chainables/transform.py'
 VARIANTS = [
+    B('revert-skip-tracked-as-an-output-key', 'chainables/transform.py',
+      "    # A skipped output is written nowhere, SKIP is a placeholder and no key.\n    result.discard(tree.Key.SKIP)\n", "", 'R-C08-24'),
+    B('revert-repeated-key-within-one-assign-accepted', 'chainables/transform.py',
+      "    if len(new_keys) != len(flat_keys):\n      raise KeyError(f'Duplicate output_keys within {assign_keys}.')\n", "", 'R-C08-24'),
     B('multiple-outputs-only-for-plain-tuples', 'chainables/tree_fns.py',
       "    if not isinstance(outputs, tuple):\n      outputs = (outputs,)", "    if type(outputs) is not tuple:\n      outputs = (outputs,)", 'R-C08-23'),
     B('tuple-record-rebuilt-with-its-own-type', 'chainables/tree.py',
@@ -985,8 +1026,8 @@ VARIANTS = [
     B('identity-fn-unwraps-single-value', 'chainables/tree_fns.py',
       'def _identity_fn(*x):\n  return x', 'def _identity_fn(*x):\n  return x[0] if len(x) == 1 else x', 'R-C08-15'),
     B('assign-key-check-skipped-when-nothing-assigned', 'chainables/transform.py',
-      '    non_dict_keys, dict_keys = mit.partition(_is_dict, assign_keys)\n    new_keys = set(itertools.chain(non_dict_keys, *dict_keys))\n    if exisiting_keys is None:\n      exisiting_keys = self.output_keys',
-      '    if exisiting_keys is None:\n      exisiting_keys = self.output_keys\n    if not exisiting_keys:\n      return\n    non_dict_keys, dict_keys = mit.partition(_is_dict, assign_keys)\n    new_keys = set(itertools.chain(non_dict_keys, *dict_keys))',
+      '    if exisiting_keys is None:\n      exisiting_keys = self.output_keys\n    if conflicting_keys',
+      '    if exisiting_keys is None:\n      exisiting_keys = self.output_keys\n    if not exisiting_keys:\n      return\n    if conflicting_keys',
       'R-C08-2'),
     B('revert-sink-adds-no-tracked-key', 'chainables/transform.py',
       '      if isinstance(fn, tree_fns.Sink):\n        # A sink forwards the records unchanged, it adds no key.\n        continue\n',
@@ -1008,15 +1049,15 @@ VARIANTS = [
       '    input_keys, output_keys = self.input_keys, self.output_keys\n    if self.fn is None:\n      if input_argkeys:\n        raise ValueError(f\'Select Op cannot have kwargs, got {input_keys=}\')\n',
       'R-C08-9'),
     B('output-keys-from-dict-values', _T,
-      '        result = set()\n      result.update(itertools.chain(non_dict_keys, *dict_keys))\n    return result\n\n  @property\n  def agg_output_keys',
-      '        result = set()\n      for key in fn.output_keys:\n        result.update(key.values() if _is_dict(key) else (key,))\n    return result\n\n  @property\n  def agg_output_keys',
+      '        result = set()\n      result.update(itertools.chain(non_dict_keys, *dict_keys))\n    # A skipped output is written nowhere, SKIP is a placeholder and no key.\n    result.discard(tree.Key.SKIP)\n    return result\n\n  @property\n  def agg_output_keys',
+      '        result = set()\n      for key in fn.output_keys:\n        result.update(key.values() if _is_dict(key) else (key,))\n    result.discard(tree.Key.SKIP)\n    return result\n\n  @property\n  def agg_output_keys',
       'R-C08-8'),
     OK('output-keys-explicit-loop', _T,
-       '        result = set()\n      result.update(itertools.chain(non_dict_keys, *dict_keys))\n    return result\n\n  @property\n  def agg_output_keys',
-       '        result = set()\n      for key in fn.output_keys:\n        result.update(key if _is_dict(key) else (key,))\n    return result\n\n  @property\n  def agg_output_keys'),
+       '        result = set()\n      result.update(itertools.chain(non_dict_keys, *dict_keys))\n    # A skipped output is written nowhere, SKIP is a placeholder and no key.\n    result.discard(tree.Key.SKIP)\n    return result\n\n  @property\n  def agg_output_keys',
+       '        result = set()\n      for key in fn.output_keys:\n        result.update(key if _is_dict(key) else (key,))\n    result.discard(tree.Key.SKIP)\n    return result\n\n  @property\n  def agg_output_keys'),
     B('check-assign-keys-from-items', _T,
-      '    new_keys = set(itertools.chain(non_dict_keys, *dict_keys))',
-      '    new_keys = set(non_dict_keys) | {v for d in dict_keys for v in d.values()}', 'R-C08-8'),
+      '        for key in itertools.chain(non_dict_keys, *dict_keys)\n        if key != tree.Key.SKIP\n',
+      '        for key in itertools.chain(non_dict_keys, *(d.values() for d in dict_keys))\n        if key != tree.Key.SKIP\n', 'R-C08-8'),
     B('revert-normalize-guard', _F,
       '        bool(self.output_keys) and self.output_keys[0] == tree.Key.SELF\n',
       '        self.output_keys[0] == tree.Key.SELF\n', 'R-C08-4'),
